@@ -101,7 +101,7 @@ var props = []PropSpec{
 			"UDP flavour runs with a clock on which no time passes (template lifetime is C10)",
 		}, codecAssumptions...),
 		Harnesses: []HarnessSpec{
-			{Func: "Check_History", Reach: []string{"bad-template", "data-rejected", "data-decoded-A", "data-decoded-B", "final"},
+			{Func: "Check_History", Reach: []string{"bad-template", "data-rejected", "data-decoded-A", "data-decoded-B", "data-decoded-C", "final"},
 				Bounds: "histories of k = 3 (quick) / 4 (thorough) messages, each one of {template A, template B (same record size, different shape), bad template (cut short after id / unknown element in strict mode), data}; the (observation domain, template id) of every message is symbolic, so all aliasing patterns are explored by the solver; tcp and udp flavours"},
 		},
 	},
@@ -119,7 +119,7 @@ var props = []PropSpec{
 		ID: "C17", Pkg: "./c17", ReplayPkg: "./cmd/rc17", Level: "model_checking",
 		Assumptions: append([]string{"wire bytes are produced by the reference encoder from symbolic values; the same bytes are presented to three collectors (strict, keep, drop) and, reduced to the known fields, to a fourth"}, codecAssumptions...),
 		Harnesses: []HarnessSpec{
-			{Func: "Check_Modes", Reach: []string{"strict-rejects", "all-known", "keep-checked", "drop-checked", "reduced-checked"},
+			{Func: "Check_Modes", Reach: []string{"strict-rejects", "all-known", "keep-checked", "drop-checked", "reduced-checked", "older-template"},
 				Bounds: "templates of 1..2 (quick) / 1..3 (thorough) positions, each a known element (6 kinds) or an unknown one (IANA id 999, enterprise 9999, Antrea id 9999) of fixed length 1,2,5 or variable length (payload 0,3,255 bytes); 1 / 1..2 records; all values symbolic"},
 		},
 	},
